@@ -55,8 +55,17 @@ def common_code(name):
 def model_case(kind, ref, pred, ri, pi):
     k = KINDS.index(kind)
     sel = [] if ri is None else [int(ri), [int(x) for x in (pi if isinstance(pi, list) else [pi])]]
-    r = ref.astype(np.int64).ravel().tolist()
-    p = pred.astype(np.int64).ravel().tolist()
+    def ints(a):
+        # the model's voxels are integers; a value of a floating-point map that is not a whole number equals no label: it is written
+        # as an integer outside every label list (one per distinct value, so that equal values stay equal)
+        if a.dtype.kind != "f":
+            return a.astype(np.int64).ravel().tolist()
+        out, odd = [], {}
+        for v in a.ravel().tolist():
+            out.append(int(v) if float(v).is_integer() else odd.setdefault(v, 7_000_001 + len(odd)))
+        return out
+    r = ints(ref)
+    p = ints(pred)
     if kind != "clDSC":
         return [k, sel, [[a, b] for a, b in zip(r, p)]]
     from skimage.morphology import skeletonize, skeletonize_3d
@@ -171,6 +180,25 @@ def gen_cases(ctx):
                 view[...] = pred
                 pred = view
         cases.append((rng.choice(kinds), ref, pred, ri, pi))
+    # label lists as a caller may write them: repeated entries (the union is over the SET of labels; whether a list "looks
+    # consecutive" means nothing), and floating-point label maps whose values are not all whole numbers
+    for _ in range(ctx.scale(40, 400)):
+        nd = rng.choice([1, 2, 3])
+        shape = tuple(rng.randint(2, 6) for _k in range(nd))
+        n = int(np.prod(shape))
+        frac = rng.random() < 0.4
+        dt = rng.choice(["float32", "float64"]) if frac else rng.choice(DTYPES + ["float64"])
+        vals = [0, 0, 1, 2, 3, 4, 5] + ([1.5, 2.5, 0.5, 3.25] if frac else [])
+        if np.dtype(dt).kind == "i" and np.dtype(dt).itemsize == 1:
+            vals = [v for v in vals if v <= 5]
+        pred = np.array([rng.choice(vals) for _k in range(n)], dtype=dt).reshape(shape)
+        ref = np.array([rng.choice([0, 1, 1, 2]) for _k in range(n)], dtype=dt).reshape(shape)
+        base = rng.choice([[1, 3], [2, 4], [1, 2], [1, 4], [2, 5], [1, 3, 5]])
+        pi = list(base)
+        if rng.random() < 0.7:
+            pi += [rng.choice(base) for _k in range(rng.randint(1, 2))]          # e.g. [1, 3, 3]: three entries spanning 1..3
+        rng.shuffle(pi)
+        cases.append((rng.choice(KINDS[:3]), ref, pred, int(rng.choice([1, 2])), [int(x) for x in pi]))
     # a reference instance against the UNION of many prediction labels (a merged prediction): long label lists (20-60 entries, some
     # absent from the array), many distinct labels in the arrays, far-away label values, integer-valued floating-point label maps
     for _ in range(ctx.scale(30, 300)):
@@ -327,6 +355,23 @@ def run(ctx):
             lo2 = [min(s_ - 1, max(0, l + rng.choice([0, 0, 1, -1]))) for s_, l in zip(shape, lo)]
             box2 = tuple(slice(l, max(l + 1, h)) for l, h in zip(lo2, hi))
             pred[box2] = np.where(pred[box2] == 0, lab, pred[box2])
+        if rng.random() < 0.4:
+            # neighbouring instances whose predictions reach several voxels into each other's reference (over- / under-segmentation):
+            # a reference instance lies partly under a prediction with ANOTHER label
+            h = rng.choice([1, 2, 3])
+            a, b, sp = rng.randint(6, 12), rng.randint(6, 12), rng.randint(3, 6)
+            w = a + b + rng.randint(0, 3)
+            shape = [h, w]
+            ref = np.zeros(shape, np.uint8); pred = np.zeros(shape, np.uint8)
+            l1, l2 = rng.sample([1, 2, 3], 2)
+            ref[:, 0:a] = l1; ref[:, a:a + b] = l2
+            if rng.random() < 0.5:
+                pred[:, 0:a - sp] = l1; pred[:, a - sp:a + b] = l2            # l2's prediction spills into reference l1
+            else:
+                pred[:, 0:a + sp] = l1; pred[:, a + sp:a + b] = l2            # l1's prediction spills into reference l2
+            if rng.random() < 0.5:
+                ref, pred = np.ascontiguousarray(ref.T), np.ascontiguousarray(pred.T)
+                shape = list(ref.shape)
         labs = [l for l in range(1, 4) if (ref == l).any() and (pred == l).any()]
         ctx.count({"evaluator_path": True, "ref": ref.tolist(), "pred": pred.tolist()}, bool(labs))
         ctx.bump("evaluator path/" + ("singleton axis" if 1 in shape else "faces"))
